@@ -281,7 +281,7 @@ def r3_insertion_rule(ctx):
                         l, r, op = r, l, SWAP[op]
                     cap = resolve_captures(P, g, r) if g else r
                     if l[0] == 'call' and l[1].endswith('ObjectPath::len') and any(y[0] == 'arg' and y[1] == 2 for y in walk(l)) \
-                            and any(y[0] == 'call' and y[1].endswith('ObjectPath::len') for y in walk(cap)) and any(y[0] == 'call' and y[1].endswith('ObjectPath::parent') for y in walk(cap)):
+                            and any(y[0] == 'call' and y[1].endswith('ObjectPath::len') for y in walk(cap)) and any(y[0] == 'call' and y[1].endswith(('ObjectPath::parent', 'ObjectPath::nonzero_parent')) for y in walk(cap)):
                         stop = op
         mo = [y for y in walk(pos) if y[0] == 'call' and y[1].endswith('Option::map_or') and y[2] and any(z is x or z == x for z in walk(y[2][0]))]
         dflt_ok = offs_ok = False
@@ -365,6 +365,10 @@ def r5_builder_rejections(ctx):
     for s in child:
         atoms = [a for _, a in f.guard_atoms(s.b)]
         par = any(a[0] == 'is' and a[2] == 'Some' and a[1][0] == 'call' and a[1][1].endswith('::get') for a in atoms)
+        if not par and len(s.args) > 1:
+            # `self.get(&parent).unwrap_or_else(|| panic!(..))` / `.expect(..)`: the parent handed to child_of exists or the build aborts
+            src = forced_some(ctx.P, f.expr_operand(s.args[1], s.b, 'T'))
+            par = src is not None and src[0] == 'call' and src[1].endswith('::get')
         ctx.check(par, 'parent-required', 'a child node is only created when its parent exists', s.where(), [show_atom(a) for a in atoms][:4])
     adds = [g for g in ctx.P.closures_of(f) if g.calls_to(NR + 'ModuleTree::add')]
     ctx.check(len(adds) == 1, 'registered-once', 'the new node is entered into the module tree exactly once', f.where())
